@@ -1113,6 +1113,82 @@ def mem_available_gb() -> float:
     return 0.0
 
 
+def metamorphic_pairs(res, rnd, tier) -> None:
+    """Two exact oracles on the real class that need no tolerance (so they also see what happens far below 1e-5):
+
+    * scale equivariance — the same history with every terminal value multiplied by 2^-30 (exact in float32, far from the
+      sub-normal range): every strategy (current, average) is bit for bit the one of the unscaled run, the cumulative regret is the
+      unscaled one times 2^-30 exactly.  Regret matching has no absolute threshold: 'no positive regret' means none, not 'little'.
+    * list identity — one minimiser gets ONE `used_actions` list object per history, re-ordered IN PLACE (same length) before every
+      iteration with the terminal values re-ordered to match; its twin gets freshly built lists with the same content.  Both must stay
+      bit-identical: what counts is what the list holds at the call, not which object it is."""
+    from incomplete_cooperative.coalitions import Coalition
+    confs = [(3, 2, False), (3, 3, True), (3, 2, True), (4, 2, False)] if tier == "quick" else \
+        [(3, L, pl) for L in (1, 2, 3) for pl in (False, True)] * 3 + [(4, 2, False), (4, 2, True), (4, 3, False)]
+    sc = np.float32(2.0 ** -30)
+    for n, limit, plus in confs:
+        for probe in ("scale", "list-identity"):
+            a, ans_a, _, _ = construct(n, limit, plus)
+            b, ans_b, _, _ = construct(n, limit, plus)
+            if a is None or b is None:
+                continue
+            hist = gen_history(rnd, n, limit, 4)
+            ctx = {"probe": probe, "n": n, "limit": limit, "plus": plus, "history": hist}
+            shared_list = None
+            ok = True
+            for t, step in enumerate(hist):
+                term = np.array([float(Fraction(x)) for x in step["terminal"]], dtype=np.float32)
+                used = [[Coalition(c) for c in x] for x in step["used"]]
+                try:
+                    with warnings.catch_warnings():
+                        warnings.simplefilter("ignore")
+                        if probe == "scale":
+                            a.regret_min_iteration(term.copy(), used)
+                            b.regret_min_iteration(term * sc, [[Coalition(c) for c in x] for x in step["used"]])
+                        else:
+                            if shared_list is None or len(shared_list) != len(used):
+                                shared_list = list(used)
+                            else:
+                                shared_list[:] = used            # same object, same length, new order / content
+                            a.regret_min_iteration(term.copy(), shared_list)
+                            b.regret_min_iteration(term.copy(), [[Coalition(c) for c in x] for x in step["used"]])
+                except Exception as e:      # noqa: BLE001
+                    res.violation(f"regret_min_iteration raised {type(e).__name__} in a metamorphic pair", dict(ctx, iteration=t),
+                                  key="regret:metamorphic:raised")
+                    ok = False
+                    break
+                res.evaluations += 1
+                res.count(f"metamorphic:{probe}")
+                ra, rb = np.array(a.cumulative_regret), np.array(b.cumulative_regret)
+                want = ra * sc if probe == "scale" else ra
+                bad = None
+                if not np.array_equal(rb, want):
+                    bad = "cumulative regret"
+                else:
+                    for mid in [int(x) for x in a.meta_rank_to_id][:40]:
+                        ka, sa_ = vec_answer(lambda: a.regret_matching_strategy(mid))
+                        kb, sb_ = vec_answer(lambda: b.regret_matching_strategy(mid))
+                        if ka != kb or (ka == "num" and not np.array_equal(sa_, sb_)):
+                            bad = f"current strategy at node {mid}"
+                            break
+                    if bad is None:
+                        ka, va = vec_answer(lambda: a.get_average_strategy(0))
+                        kb, vb = vec_answer(lambda: b.get_average_strategy(0))
+                        if ka != kb or (ka == "num" and not np.array_equal(va, vb)):
+                            bad = "average strategy at the root"
+                if bad:
+                    what = ("the same history with all terminal values scaled by 2^-30 does not give the same strategies / the scaled regrets"
+                            if probe == "scale" else
+                            "a minimiser fed ONE used_actions list object, re-ordered in place between iterations, differs from its twin fed "
+                            "fresh lists with the same content")
+                    res.violation(f"{what}: {bad} differs after iteration {t + 1}", dict(ctx, iteration=t + 1),
+                                  key=f"regret:metamorphic:{probe}")
+                    ok = False
+                    break
+            if ok:
+                res.nontrivial.add(("metamorphic", probe, n, limit, plus))
+
+
 def plan(tier: str):
     """(n, limit, histories per plus-flag, iterations before save/load, iterations after it).
     Exact rationals grow quickly with the depth of the tree (a strategy is a quotient of sums), so the
@@ -1164,6 +1240,7 @@ def run(tier: str, budget: Budget, rnd, arg) -> StreamResult:
             if rm is not None:
                 kind, a = vec_answer(lambda: rm.regret_matching_strategy(0))
                 script.add(f"rgt strategy d{n}_{L} 0", rlist(a) if kind == "num" else kind, {"out_of_domain": (n, L)})
+    metamorphic_pairs(res, rnd, tier)
     # ---- objects
     tmp = Path(tempfile.mkdtemp(prefix="verif_rgt_", dir="/tmp"))
     nums_cases = 0
